@@ -28,7 +28,7 @@ H.append({"name":"H_edits","tiers":Q,"scale":"b2","bounds":"B=2: generic-positio
   "param_sets":[{"n":17,"kind":1,"o":o,"m":m,"kind2":0,"o2":0,"m2":0,"eqins":1} for o in range(0,9) for m in (3,4)]})
 H.append({"name":"H_edits","tiers":T,"scale":"b2","bounds":"B=2: old 13 bytes; every single edit; and pairs of edits (second: 1 byte at 3 offsets), bound introduced + 6B","max_seconds":1500,
   "param_sets":edits(13,2,False)+edits(9,2,True)})
-H.append({"name":"H_edits","tiers":T,"scale":"b4","bounds":"B=4: old 13 bytes; every single edit of 1 or B+1 bytes","max_seconds":900,"param_sets":edits(13,4,False)})
+H.append({"name":"H_edits","tiers":T,"scale":"b4","bounds":"B=4: old 13 bytes; every single 1-byte overwrite or deletion (insertions and B+1-byte edits at B=4 exceed the per-instance budget)","max_seconds":900,"param_sets":[p for p in edits(13,4,False) if p["m"]==1 and p["kind"]!=1]})
 H.append({"name":"H_reuse","tiers":T,"scale":"b3","bounds":"B=3: A 0..7, B in {0,3,4}","max_seconds":1500,
   "param_sets":[{"a":a,"b":b,"mode":m} for a in range(0,8) for b in (0,3,4) for m in range(0,4)]})
 json.dump({"property":"C08","package":"c08","scale":scale,"harnesses":H,
